@@ -250,6 +250,10 @@ def check_redecl(ck, F, S, f, inst, st1, st2, first, root, base_eff, R_once, R_r
     ck.check(R_once, inst, listed == [('addr', root)],
              f'{inst}: the declaration sequence receives {len(listed)} append(s) of the returned declaration', loc=f['loc'], fn=f['id'])
     problems = []
+    if not (isinstance(root, tuple) and root[:1] == ('obj',) and root[1] in st2.heap and root[1] not in st1.heap):
+        ck.fail(R_redecl, inst, f'{inst}: a second declaration with the same name and type returns `{contracts.render(root, st2, {})[:80]}`, '
+                'not a declaration of its own: the scope lists one node twice and the decl-set does not grow', loc=f['loc'], fn=f['id'])
+        return
     fo = st2.heap[first[1]]
     fmd = st2.heap[fo.fields['decl_data'][1]].fields.get('master_data')
     o = st2.heap[root[1]]
